@@ -112,3 +112,50 @@ def c17_gop(rng, tier):
         yield {"call": lambda self, parameter_name, goal_name, population_id, sorted: self.goal_on_parameter(parameter_name, goal_name, population_id, sorted),
                "args": {"self": r, "parameter_name": pn, "goal_name": gn, "population_id": pid, "sorted": False},
                "post_extra": extra, "label": "#%d pid=%d %s %s" % (k, pid, pn, gn)}
+
+
+def _listing(method, argnames):
+    def gen(rng, tier):
+        import builtins
+        for k in range(60 if tier == "quick" else 1500):
+            p, r = _results(rng, maximize=(k % 2 == 0))
+            for x in p.individuals:
+                x.features['front_number'] = rng.choice([1, 1, 2, 3])
+            tags = sorted({x.population_id for x in p.individuals})
+            pid = rng.choice([-1] + tags)
+            pn, p2, gn = rng.choice(['a', 'b']), rng.choice(['a', 'b']), rng.choice(['f', 'g'])
+            srt = rng.choice([True, False])
+            name = rng.choice([None, 'x'])
+            vals = {"parameter_name": pn, "goal_name": gn, "population_id": pid, "sorted": srt, "parameter_1": pn, "parameter_2": p2,
+                    "name": None if name is None else (gn if "goal" in method else pn), "transpose": rng.choice([True, False])}
+            if method in ("pareto_front", "pareto_individuals"):
+                vals["population_id"] = rng.choice([None] + tags)
+            args = {"self": r}
+            args.update({a: vals[a] for a in argnames})
+            if method == "goal_on_parameter#sorted":
+                args["sorted"] = True
+            call_name = method.split("#")[0]
+            extra = {"ghost_pi": ['a', 'b'].index(pn), "ghost_gi": ['f', 'g'].index(gn), "ghost_p1": ['a', 'b'].index(pn),
+                     "ghost_p2": ['a', 'b'].index(p2), "builtins_sorted": builtins.sorted, "id": id}
+            yield {"call": (lambda self, **kw: getattr(self, call_name)(**kw)), "args": args, "extra": extra,
+                   "label": "#%d %s %r tags=%r" % (k, method, {a: args[a] for a in argnames}, [x.population_id for x in p.individuals])}
+    gen.__name__ = "c17_" + method.replace("#", "_")
+    return gen
+
+
+for _m, _a in (("goal_on_parameter#sorted", ["parameter_name", "goal_name", "population_id", "sorted"]),
+               ("parameter_on_goal", ["goal_name", "parameter_name", "population_id", "sorted"]),
+               ("parameter_on_parameter", ["parameter_1", "parameter_2", "population_id", "sorted"]),
+               ("goal_on_index", ["name", "population_id"]), ("parameter_on_index", ["name", "population_id"]),
+               ("costs", []), ("parameters", []), ("pareto_front", ["population_id"]), ("pareto_individuals", ["population_id"]),
+               ("table", ["transpose"])):
+    scenario("artap.results:Results." + _m, bound="<= 7 recorded designs with unsorted tags {0,1,2,5}, every listing argument combination")(_listing(_m, _a))
+
+
+@scenario("artap.problem:Problem.populations", bound="<= 7 recorded designs with unsorted, interleaved tags")
+def c17_populations(rng, tier):
+    import builtins
+    for k in range(60 if tier == "quick" else 1500):
+        p, r = _results(rng)
+        yield {"call": lambda self: self.populations(), "args": {"self": p}, "extra": {"builtins_sorted": builtins.sorted, "id": id},
+               "label": "#%d tags=%r" % (k, [x.population_id for x in p.individuals])}
